@@ -27,6 +27,12 @@ PROP = {'rule': 'rapid state machine (-rapid.steps=50) over the real migration R
          'follows the scheduler\'s syncStatus: currentOwners always, phase Succeeded only for allocate-once (nil = true), otherwise the '
          'reservation stays Available with owners. In Extended a third of the jobs\' reservations report NeedPreemption()=false (Preempt, '
          'if asked for one, answers "nothing to preempt, complete"; that never counts as capacity secured). '
+         'Extended also runs rounds of the controller\'s scavenger (Reconciler.doScavenge) with a profile in which a job made through '
+         'CreatePodMigrationJob outlives its controller instance (restart -> clock to TTL+5m -> scavenger round); oracle: after a round '
+         'without API errors no job with a TTL that is expired for >= 5 minutes (the scavenger\'s own grace, taken as tolerance) still '
+         'has its referenced Reservation. With the preemption interpreter a "full cluster" profile (no API errors, graceful pod '
+         'termination, nothing placed without preemption) walks given-up -> preempted -> evicted -> the scheduler re-words its '
+         'unschedulable report while the evicted pod still exists -> reconcile. '
          'non-trivial = the job\'s reservation changes state between two reconciles of a Running job, or an API write fails right after a '
          'successful Evict. distinct = FNV-64 fingerprint of the full history.',
  'assumptions': ['API = controller-runtime fake client with status subresources for PodMigrationJob and Reservation, plus server-side UID / '
@@ -48,7 +54,7 @@ PROP = {'rule': 'rapid state machine (-rapid.steps=50) over the real migration R
             'files': ['C17/c17_migration_test.go'],
             'tests': [{'run': 'TestVerifC17History', 'quick': 600, 'quick_shards': 3, 'thorough': 3000, 'steps': 50},
                       {'run': 'TestVerifC17UserInput', 'quick': 600, 'quick_shards': 2, 'thorough': 3000, 'shards': 4, 'steps': 50},
-                      {'run': 'TestVerifC17Extended', 'quick': 600, 'quick_shards': 2, 'thorough': 3000, 'shards': 4, 'steps': 50}]}],
+                      {'run': 'TestVerifC17Extended', 'quick': 600, 'quick_shards': 3, 'thorough': 3000, 'shards': 4, 'steps': 50}]}],
  'manifest': {'technique': 'property-based testing (rapid): state-machine histories of reconcile / environment / clock / restart / '
                            'fault-injection actions against the real controller, with a recording evictor and an independent oracle on the raw API objects',
               'text': 'Generated-history search: every Evict call of a reservation-first job is stamped with the persisted Reservation and pod '
